@@ -255,6 +255,11 @@ class Engine:
             shapes = c.shapes_thorough
         for cfg in shape_configs(shapes):
             try:
+                if os.environ.get('PVC_STANDIN_ONLY'):
+                    # diagnostic mode (tools/standin_audit.py): behave as if
+                    # the code had left the modelled subset, to see what the
+                    # native stand-in alone would report on this tree
+                    raise Unsupported('stand-in audit')
                 if isinstance(c, Contract):
                     self._verify_contract(c, cfg)
                 else:
@@ -268,13 +273,13 @@ class Engine:
                 # bounded stand-in: the same clauses are checked natively on
                 # seeded samples of the precondition domain (never counted
                 # as proved; a failing sample is a replayed violation)
-                if isinstance(c, Contract):
-                    try:
-                        specs = self.arg_specs(c, cfg)
-                        self._cross_check(c, cfg, specs, [], None,
-                                          native_only=True)
-                    except Exception:
-                        pass
+                try:
+                    specs = self.arg_specs(c, cfg)
+                    self._cross_check(c, cfg, specs, [], None,
+                                      native_only=True)
+                except Exception as e2:
+                    self.cross['skipped'].append(
+                        'stand-in for %s: %s: %s' % (c.name, type(e2).__name__, str(e2)[:100]))
             except Exception as e:
                 self.errors.append('%s%s: %s\n%s' % (
                     c.name, cfg_label(cfg), e, traceback.format_exc()))
@@ -642,6 +647,8 @@ class Engine:
                 ob.exact = not pr.ctx.atoms.info
                 ob.fail_path = pr
                 ob.detail = 'refuted on path %d (%s)' % (pi, pr.outcome)
+                if getattr(pr, 'exc', None) is not None:
+                    ob.detail += ' %s' % (' '.join(str(a) for a in getattr(pr.exc, 'args', ()))[:160],)
                 break
             ob.cfg = cfg
             ob.contract = c
@@ -816,14 +823,14 @@ class Engine:
             asgs += [self.sample_assignment(specs, rng) for _ in range(n)]
             # and, where the precondition is not a box, let the solver
             # complete partially pinned random points into models of it
-            if c.requires:
+            if isinstance(c, Contract) and c.requires:
                 try:
                     asgs += self._solver_samples(c, cfg, specs, n, rng)
                 except Exception as e:
                     self.cross['skipped'].append(
                         'solver-guided samples for %s: %s: %s'
                         % (c.name, type(e).__name__, str(e)[:100]))
-        clauses = [t for (_l, t) in c.ensures]
+        clauses = [t for (_l, t) in (c.ensures if isinstance(c, Contract) else c.prove)]
         jobs = [self.job_for(c, specs, a, clauses) for a in asgs]
         self.pending_cross.append((c, cfg, specs, paths, asgs, jobs))
 
@@ -919,7 +926,8 @@ class Engine:
             key = '%s%s' % (c.name, cfg_label(cfg))
             self.native_valid[key] = self.native_valid.get(key, 0) + 1
             if r.get('outcome') == 'return':
-                for (lb, text), v in zip(c.ensures, r.get('clauses', [])):
+                for (lb, text), v in zip(c.ensures if isinstance(c, Contract) else c.prove,
+                                         r.get('clauses', [])):
                     if v is False:
                         self.native_clause_failures.append(
                             (c, cfg, specs, lb, text, a, r))
